@@ -84,7 +84,7 @@ func ahtHistory(r *vk.Run, maxN int, withProofs bool) error {
 				return fmt.Errorf("Append #%d after ops %v: %w", len(payloads)+1, ops, err)
 			}
 			payloads = append(payloads, d)
-			mops = append(mops, "OAppend "+hx(d))
+			mops = append(mops, "A2 "+hx(d))
 			if len(payloads) > hw {
 				hw = len(payloads)
 			}
@@ -99,7 +99,7 @@ func ahtHistory(r *vk.Run, maxN int, withProofs bool) error {
 				return fmt.Errorf("reset: %w", err)
 			}
 			payloads = payloads[:ns]
-			mops = append(mops, fmt.Sprintf("OReset %d", ns))
+			mops = append(mops, fmt.Sprintf("R2 %d", ns))
 			ops = append(ops, fmt.Sprintf("reset(%d)", ns))
 		case x < 17:
 			if err := t.Sync(); err != nil {
@@ -119,6 +119,7 @@ func ahtHistory(r *vk.Run, maxN int, withProofs bool) error {
 			if err != nil {
 				return fmt.Errorf("reopen: %w", err)
 			}
+			mops = append(mops, "Reopen2")
 			ops = append(ops, "reopen")
 		default:
 			// read something (exercises the caches)
@@ -577,6 +578,9 @@ func resetReopenProbe(r *vk.Run) error {
 		return err
 	}
 	defer t.Close()
+	// the same history on the model (the restart re-derives the size from the commit-log file)
+	r.Case(fmt.Sprintf("CAhtProbe [A2 (hex \"00\"); A2 (hex \"01\"); A2 (hex \"02\"); A2 (hex \"03\"); A2 (hex \"04\"); R2 2; A2 (hex \"09\"); Reopen2] %d", t.Size()),
+		map[string]any{"kind": "ahtprobe", "size": t.Size()}, "aht/probe", true)
 	if t.Size() != 3 {
 		r.Finding(fmt.Sprintf("ahtree rewind not durable: append x5, ResetSize(2), Append, Close, Open => Size() = %d, expected 3", t.Size()))
 	}
